@@ -242,16 +242,23 @@ pub fn faulty_script() -> impl Strategy<Value = Script> {
         prop::bool::ANY,
         prop::collection::vec(prop_oneof![3 => issue(4), 1 => advance().prop_map(GenStep::Plain), 1 => Just(GenStep::Plain(Step::ReleaseAll))], 0..=4usize),
         prop::bool::ANY,
+        prop::bool::weighted(0.3),
     )
-        .prop_map(|(seed, seg, before, fault, queued, hold, after, broken_pipe)| {
+        .prop_map(|(seed, seg, before, fault, queued, hold, after, broken_pipe, after_first)| {
             let mut gen: Vec<GenStep> = before.concat();
             if hold {
                 gen.push(GenStep::Plain(Step::Hold));
             }
             gen.extend(queued);
             gen.extend(fault);
-            gen.push(GenStep::Plain(Step::ReleaseAll));
-            gen.extend(after);
+            if after_first {
+                // later requests are issued while the fault's effect is still withheld
+                gen.extend(after);
+                gen.push(GenStep::Plain(Step::ReleaseAll));
+            } else {
+                gen.push(GenStep::Plain(Step::ReleaseAll));
+                gen.extend(after);
+            }
             let mut s = assemble(seed, seg, None, gen);
             s.broken_pipe = broken_pipe;
             s
